@@ -191,7 +191,8 @@ func runC18(c *Ctx) {
 		c.info("R18.4: basePool no longer exists; RootCAs origins are checked directly")
 	}
 	for _, r := range bpReturns {
-		ok, bad := allOrigins(r.Results[0], oParam(basePool, 0), oCall(-1, "crypto/x509.NewCertPool"))
+		// (the supplied pool: the parameter itself, or the LoadedCAPool of the options the helper is handed)
+		ok, bad := allOrigins(r.Results[0], oParam(basePool, 0), oCall(-1, "crypto/x509.NewCertPool"), oFieldLoad("rt/client.TLSClientOptions", "LoadedCAPool", nil))
 		c.obI("R18.4", r, "basePool-result", ok, "basePool returns the supplied pool or a new empty pool", "origin "+describeOrigin(bad))
 	}
 	rootStores := fieldStores(f, tlsConfigT, "RootCAs")
@@ -252,19 +253,47 @@ func runC18(c *Ctx) {
 	// R18.5 identity
 	certStores := fieldStores(f, tlsConfigT, "Certificates")
 	for _, st := range certStores {
-		elems, ok := sliceLitElems(st.Val)
-		if ap := asCall(st.Val); !ok && ap != nil && calleeName(&ap.Call) == "builtin append" && len(ap.Call.Args) == 2 {
-			// append(cfg.Certificates, pair): whatever the field held before was stored under this same rule
-			if isNilConst(ap.Call.Args[0]) || vFieldLoad(tlsConfigT, "Certificates", nil)(ap.Call.Args[0]) || freshSlice(ap.Call.Args[0], 0) {
-				elems, ok = sliceLitElems(ap.Call.Args[1])
+		// the value stored may be a local that was assigned the pair on some paths and left nil on the others
+		var cands []ssa.Value
+		var flat func(v ssa.Value, d int)
+		flat = func(v ssa.Value, d int) {
+			if phi, isPhi := v.(*ssa.Phi); isPhi && d < 4 {
+				for _, e := range phi.Edges {
+					flat(e, d+1)
+				}
+				return
+			}
+			cands = append(cands, v)
+		}
+		flat(st.Val, 0)
+		good, nonNil := true, 0
+		why := "value " + describe(st.Val)
+		for _, cv := range cands {
+			if isNilConst(cv) {
+				continue
+			}
+			nonNil++
+			elems, ok := sliceLitElems(cv)
+			if ap := asCall(cv); !ok && ap != nil && calleeName(&ap.Call) == "builtin append" && len(ap.Call.Args) == 2 {
+				// append(cfg.Certificates, pair): whatever the field held before was stored under this same rule
+				if isNilConst(ap.Call.Args[0]) || vFieldLoad(tlsConfigT, "Certificates", nil)(ap.Call.Args[0]) || freshSlice(ap.Call.Args[0], 0) {
+					elems, ok = sliceLitElems(ap.Call.Args[1])
+				}
+			}
+			okC := ok && len(elems) == 1
+			if okC {
+				var badO *Origin
+				okC, badO = allOrigins(elems[0], oCall(0, "crypto/tls.LoadX509KeyPair", "crypto/tls.X509KeyPair"), oNil()) // (zero value: a helper's result on its error path)
+				if !okC {
+					why += ": origin " + describeOrigin(badO)
+				}
+				okC = okC && someOrigin(elems[0], oCall(0, "crypto/tls.LoadX509KeyPair", "crypto/tls.X509KeyPair"))
+			}
+			if !okC {
+				good = false
 			}
 		}
-		good := ok && len(elems) == 1
-		if good {
-			good, _ = allOrigins(elems[0], oCall(0, "crypto/tls.LoadX509KeyPair", "crypto/tls.X509KeyPair"), oNil()) // (zero value: a helper's result on its error path)
-			good = good && someOrigin(elems[0], oCall(0, "crypto/tls.LoadX509KeyPair", "crypto/tls.X509KeyPair"))
-		}
-		c.obI("R18.5", st, "Certificates-origin", good, "tls.Config.Certificates holds exactly the certificate returned by LoadX509KeyPair / X509KeyPair", "value "+describe(st.Val))
+		c.obI("R18.5", st, "Certificates-origin", good && nonNil > 0, "tls.Config.Certificates holds exactly the certificate returned by LoadX509KeyPair / X509KeyPair for this call's files (not a remembered pair)", why)
 	}
 	for _, ci := range callsIn(f, "crypto/tls.LoadX509KeyPair") {
 		_, args := callArgs(ci.Common())
@@ -279,6 +308,16 @@ func runC18(c *Ctx) {
 			c.obI("R18.5", r, "Certificates-set-when-"+o.name, !miss && len(certStores) > 0, "every success path on which opts."+o.name+" is present has stored tls.Config.Certificates (identity is never dropped silently)", "a success path with the option present does not store the client certificate")
 		}
 	}
+	// exactly one certificate is presented: the sources exclude each other (file pair first, else the loaded pair) —
+	// no path stores Certificates twice (two appended pairs would let the TLS stack pick either)
+	for i, s1 := range certStores {
+		for j, s2 := range certStores {
+			if i == j {
+				continue
+			}
+			c.obI("R18.5", s2, "one-certificate-source-per-config", !pathExists(f, s1, s2, nil, nil), "the certificate sources are alternatives: once Certificates was set from one source no later store adds another", "a path sets Certificates from one source and then from another: the configuration presents two certificates")
+		}
+	}
 	// error discipline
 	checkErrorsReturned(c, "R18.5", f, 1, nil)
 	c.min("R18.5", 8)
@@ -291,6 +330,22 @@ func runC18(c *Ctx) {
 		c.obI("R18.5", st, "transport-config", ok, "TLSTransport installs the config returned by TLSClientAuth unchanged", "origin "+describeOrigin(bad))
 	}
 	c.obRF("R18.5", tt, "transport-config-exists", len(fieldStoresAny(tt, "net/http.Transport", "TLSClientConfig")) == 1, "TLSTransport sets Transport.TLSClientConfig", "store not found")
+	// … for every option set: what TLSTransport returns on success is a transport it has just built around that config
+	// (a shared or default transport carries none of the options — server name, verification callback, session settings)
+	for _, r := range realReturns(tt) {
+		if len(r.Results) != 2 || !isNilConst(r.Results[1]) {
+			continue
+		}
+		ok, bad := allOrigins(unboxed(r.Results[0]), func(o Origin) bool {
+			al, isAl := o.V.(*ssa.Alloc)
+			if !isAl || !al.Heap {
+				return false
+			}
+			n, _ := structOf(al.Type())
+			return n != nil && typeFullName(n) == "net/http.Transport"
+		})
+		c.obI("R18.5", r, "transport-built-for-these-options", ok, "every successful TLSTransport returns a transport made by this call (the one that carries the options' tls.Config)", "origin "+describeOrigin(bad))
+	}
 	tc := p.Fn("rt/client.TLSClient")
 	checkErrorsReturned(c, "R18.5", tc, 1, nil)
 	for _, st := range fieldStoresAny(tc, "net/http.Client", "Transport") {
@@ -358,7 +413,7 @@ func checkErrorsReturnedX(c *Ctx, rule string, f *ssa.Function, errIdx int, skip
 			continue
 		}
 		name := calleeName(&call.Call)
-		if infallible[name] {
+		if infallible[name] || writesIntoMemoryBuffer(call) {
 			continue
 		}
 		ev := errValueOf(call)
@@ -430,4 +485,23 @@ func checkErrorsReturnedX(c *Ctx, rule string, f *ssa.Function, errIdx int, skip
 var infallible = map[string]bool{
 	"(*bytes.Buffer).Write": true, "(*bytes.Buffer).WriteString": true, "(*bytes.Buffer).WriteByte": true, "(*bytes.Buffer).WriteRune": true,
 	"(*strings.Builder).Write": true, "(*strings.Builder).WriteString": true, "(*strings.Builder).WriteByte": true, "(*strings.Builder).WriteRune": true,
+}
+
+// writesIntoMemoryBuffer: io.WriteString / fmt.Fprint* into a writer that is, on every path, a *bytes.Buffer or a
+// *strings.Builder: their Write methods are documented never to fail.
+func writesIntoMemoryBuffer(call *ssa.Call) bool {
+	n := calleeName(&call.Call)
+	if n != "io.WriteString" && n != "fmt.Fprintf" && n != "fmt.Fprint" && n != "fmt.Fprintln" {
+		return false
+	}
+	if len(call.Call.Args) == 0 {
+		return false
+	}
+	w := call.Call.Args[0]
+	mi, ok := w.(*ssa.MakeInterface)
+	if !ok {
+		return false
+	}
+	t := typeStr(mi.X.Type())
+	return t == "*bytes.Buffer" || t == "*strings.Builder"
 }
